@@ -11,7 +11,7 @@ def check(repo, rep, tier):
                        'snapshot iteration), and no generator writes back to the store a list derived from a read made before '
                        'its last suspension; removals are by identity under a presence test. Termination of particular update '
                        'loops follows from these but is not itself decided.')
-    sm, pa = rep.run(rd.rule_frozen_lists, em, rep, 'C14.L1') or (rd.StoreModel(em), None)
+    sm, pa = rep.run(rd.rule_frozen_lists, em, rep, 'C14.L1') or (None, None)      # (the rules below build the model themselves)
     rep.run(rd.rule_no_read_yield_write, em, rep, 'C14.L2', sm)
     rep.run(rd.rule_remove_by_identity, em, rep, 'C14.L3', sm)
     rep.run(rx.rule_facts_immutable, em, rep, 'C14.L4')
